@@ -363,7 +363,9 @@ func (ps *PruningStorer) Get(key []byte) ([]byte, error) {
 		// search it in active persisters
 		found := false
 		ps.lock.RLock()
-		for idx := uint32(0); (idx < ps.numOfActivePersisters) && (idx < uint32(len(ps.activePersisters))); idx++ {
+		// every active persister is searched: after a stuck-shard extension there are more than
+		// numOfActivePersisters of them and the extended (older) ones have to stay readable
+		for idx := 0; idx < len(ps.activePersisters); idx++ {
 			if ps.bloomFilter == nil || ps.bloomFilter.MayContain(key) {
 				v, err = ps.activePersisters[idx].persister.Get(key)
 				if err != nil {
